@@ -83,6 +83,23 @@ fn oracle(s: &ProgScene<X>, t: &Trace) -> Vec<Violation> {
                     detail: format!("client {c} op {i} {op:?} never returned"),
                 });
             }
+            // (2b) nothing submitted to a live actor is refused: the non-waiting path ignores the
+            // bound, the waiting path waits - neither reports "full"
+            if let Some(o) = rec {
+                let term = an.task_end(0).map(|(i, _)| i).unwrap_or(usize::MAX);
+                if let (Some(e), Some(r)) = (o.end, o.res) {
+                    if e < term {
+                        crate::check::oblige("live-actor-accepts");
+                        if matches!(r, Res::Err(_)) {
+                            out.push(Violation {
+                                clause: "live-actor-accepts",
+                                key: format!("C12/refused-by-live-actor/{}/mailbox={mbn}", format!("{op:?}").split('(').next().unwrap_or("")),
+                                detail: format!("client {c} op {i} {op:?} returned {r:?} while the actor was alive"),
+                            });
+                        }
+                    }
+                }
+            }
             // (3) on an unbounded mailbox send never waits: begin and end in the same step
             if let (Mailbox::U, true, Some(o)) = (mb, is_waiting_send(op), rec) {
                 crate::check::oblige("unbounded-send-never-waits");
@@ -250,7 +267,7 @@ pub fn property() -> Property {
     Property {
         id: "C12",
         cases,
-        clauses: &["backpressure-bound", "unbounded-send-never-waits", "stop-never-waits"],
+        clauses: &["live-actor-accepts", "backpressure-bound", "unbounded-send-never-waits", "stop-never-waits"],
         full_rerun_check: true,
         assumptions: &["'taken out of its mailbox' is observed as handler entry, which happens in the same step as the dequeue"],
     }
